@@ -114,7 +114,7 @@ def register(db):
             ("failed-conversion-keeps-input", "implies(called('warnings.warn') == 1, result is value)"),
             ("warning-only-when-lenient", "implies(called('warnings.warn') == 1, not config.fail_on_converter_warnings)"),
         ],
-        raises={"ParserError": "config.fail_on_converter_warnings and called('warnings.warn') == 0"},
+        raises={"ParserError": "config.fail_on_converter_warnings and called('warnings.warn') == 0"}, returns="u:Any",
         properties=P + ["C15"],
     ))
     # ------------------------------------------------------------------ parser end event
@@ -134,13 +134,6 @@ def register(db):
     def decoder(mk, base):
         return mk.obj(DD, {"config": "opaque:ParserConfig", "context": "opaque:XmlContext"})
 
-    db.add(Contract(f"{DD}.find_var", trusted=True, params={}, returns="u:XmlVar|None", raises={},
-                    call_ensures=["result == uf('DictDecoder.find_var', 'u:XmlVar|None', xml_vars, key, value)"],
-                    note="assumed: key -> field lookup is a function of (fields, key, value)"))
-    db.add(Contract(f"{DD}.bind_derived_dataclass", trusted=True, params={}, returns="u:Any",
-                    raises={"ParserError": True, "ConverterError": True, "XmlContextError": True}))
-    db.add(Contract(f"{DD}.bind_value", trusted=True, params={}, returns="u:Any",
-                    raises={"ParserError": True, "ConverterError": True, "XmlContextError": True}))
     db.add(Contract("xsdata.formats.dataclass.parsers.utils:ParserUtils.validate_fixed_value", trusted=True, params={},
                     raises={"ParserError": True}))
     db.add(Contract(
